@@ -51,6 +51,7 @@ type Contract struct {
 	Requires   []*Clause
 	Ensures    []*Clause
 	Modifies   []*CExpr // nil = not stated
+	Preserves  []*CExpr // with modifies all: heap keys that are nevertheless unchanged (T.f, elems(*T), global(v))
 	ModAll     bool
 	ModNone    bool
 	ModStated  bool
@@ -409,6 +410,14 @@ func (sp *Specs) loadSpecFile(path, pkg string) error {
 					c.Modifies = append(c.Modifies, e)
 				}
 			}
+		case "preserves":
+			for _, part := range splitTop(rest, ',') {
+				e, err := parseCExpr(part)
+				if err != nil {
+					return fail(l, "%v", err)
+				}
+				c.Preserves = append(c.Preserves, e)
+			}
 		case "frameprop":
 			c.FrameProps = append(c.FrameProps, strings.Fields(rest)...)
 		case "loop":
@@ -434,7 +443,9 @@ func (sp *Specs) loadSpecFile(path, pkg string) error {
 				}
 				ls.Invariants = append(ls.Invariants, cl)
 			case "modifies":
-				ls.Modifies = append(ls.Modifies, strings.Fields(strings.ReplaceAll(r3, ",", " "))...)
+				for _, part := range splitTop(r3, ',') {
+					ls.Modifies = append(ls.Modifies, strings.TrimSpace(part))
+				}
 			case "deterministic", "deterministic*":
 				ls.Deterministic = true
 				ls.DetStar = kind == "deterministic*"
